@@ -639,3 +639,70 @@ func evalGuards(gs []Cond, env map[string]bool, atom func(ast.Expr) (string, boo
 	}
 	return val, true
 }
+
+// evalBoolFunc evaluates a boolean function whose body is a sequence of
+// definitions, `if c { return E }` guards (no else) and a final `return E`
+// under an assignment of its atoms (conditions are expanded through
+// single-assignment locals first). ok is false when the body has another shape
+// or a leaf is not an atom.
+func (fi *FuncInfo) evalBoolFunc(env map[string]bool, atom func(ast.Expr) (string, bool)) (val, ok bool) {
+	return fi.evalBoolStmts(fi.Decl.Body.List, env, atom)
+}
+
+func (fi *FuncInfo) evalBoolStmts(list []ast.Stmt, env map[string]bool, atom func(ast.Expr) (string, bool)) (val, ok bool) {
+	lit := func(e ast.Expr) (bool, bool) {
+		if id, isId := ast.Unparen(e).(*ast.Ident); isId && (id.Name == "true" || id.Name == "false") {
+			return id.Name == "true", true
+		}
+		return false, false
+	}
+	eval := func(e ast.Expr) (bool, bool) {
+		if v, isLit := lit(e); isLit {
+			return v, true
+		}
+		return evalCondLit(fi.expandLocals(e), env, atom)
+	}
+	for _, st := range list {
+		switch s := st.(type) {
+		case *ast.AssignStmt, *ast.DeclStmt, *ast.EmptyStmt:
+			continue
+		case *ast.ReturnStmt:
+			if len(s.Results) != 1 {
+				return false, false
+			}
+			return eval(s.Results[0])
+		case *ast.IfStmt:
+			c, okc := eval(s.Cond)
+			if !okc {
+				return false, false
+			}
+			if c {
+				return fi.evalBoolStmts(s.Body.List, env, atom)
+			}
+			switch el := s.Else.(type) {
+			case nil:
+			case *ast.BlockStmt:
+				if terminates(el) {
+					return fi.evalBoolStmts(el.List, env, atom)
+				}
+				return false, false
+			case *ast.IfStmt:
+				return fi.evalBoolStmts([]ast.Stmt{el}, env, atom)
+			}
+		default:
+			return false, false
+		}
+	}
+	return false, false
+}
+
+// evalCondLit is evalCond that also knows the literals true and false.
+func evalCondLit(e ast.Expr, env map[string]bool, atom func(ast.Expr) (string, bool)) (bool, bool) {
+	return evalCond(e, env, func(x ast.Expr) (string, bool) {
+		if id, ok := ast.Unparen(x).(*ast.Ident); ok && (id.Name == "true" || id.Name == "false") {
+			env["\x00lit"] = true
+			return "\x00lit", id.Name == "true"
+		}
+		return atom(x)
+	})
+}
